@@ -40,6 +40,24 @@ func genTree(r *rng) []treeFile {
 		var data []byte
 		if !r.chance(1, 6) {
 			data = []byte(strings.Join(strings.Fields(oovBlock(r, 5+r.intn(30), 2)+" license text "+synthVocab[r.intn(len(synthVocab))]), " "))
+			if r.chance(1, 3) {
+				// a file as a Windows checkout has it: CRLF line ends, some after a mid-word hyphen; or old Mac CR,
+				// form feeds, a byte-order mark: the bytes must reach the corpus exactly as AddContent would get them
+				ws := strings.Fields(string(data))
+				for j := range ws {
+					switch r.intn(8) {
+					case 0:
+						if len(ws[j]) > 4 {
+							ws[j] = ws[j][:2] + "-\r\n" + ws[j][2:]
+						}
+					case 1:
+						ws[j] += "\r\n"
+					case 2:
+						ws[j] += r.pick([]string{"\r", "\f", "-\n", "\t\r\n", "\n\n"})
+					}
+				}
+				data = []byte(r.pick([]string{"", "", "\xef\xbb\xbf"}) + strings.Join(ws, " "))
+			}
 		}
 		fs = append(fs, treeFile{strings.Join(segs, "/"), data})
 	}
@@ -141,6 +159,14 @@ func cmdC12(seed uint64, tier, outdir string) {
 			li.printf("%s\n", keysOf(c))
 			if keysOf(c) != keysOf(ref) {
 				verdict = fmt.Sprintf("corpus keys %q differ from per-file AddContent %q", keysOf(c), keysOf(ref))
+			}
+			if verdict == "" {
+				// the documents themselves: word for word what AddContent makes of the file's bytes
+				for _, k := range ref.VerifDocs() {
+					if a, b := strings.Join(c.VerifDocWords(k), " "), strings.Join(ref.VerifDocWords(k), " "); a != b {
+						verdict = fmt.Sprintf("document %s differs from AddContent of the file's bytes: %q vs %q", k, trunc(a, 150), trunc(b, 150))
+					}
+				}
 			}
 			if verdict == "" && exact {
 				// identical Match results on probe inputs
